@@ -17,7 +17,7 @@ RULE = ("obligations: Coq theorems + side conditions evaluated by vm_compute on 
         "3 blocking wait, 4 coroutine awaiter resumed by the resolver, 5 two threads on one reusable_storage_mtsafe, 6 counter under "
         "the coroutine mutex with 3 threads, 7 queue push/pop across threads, 8 generator next_sync with the generator continuing in a "
         "pool thread, 9 publisher publish/next/position/subscribe from 4 threads, 10 thread_pool + scheduler submit/cancel from several "
-        "threads); each case = (scenario, iteration count), every iteration uses fresh objects and checks value integrity; "
+        "threads, 11 four threads contending lock()/try_lock() on one coroutine mutex while the owner hands over / rebuilds its queue); each case = (scenario, iteration count), every iteration uses fresh objects and checks value integrity; "
         "non-trivial = at least 5 iterations; distinct = distinct (scenario, iterations) list")
 SCOPE = ("release/acquire protocols P1 payload publication, P2 awaiter-node publication (future, signal, mutex instances), P3 mutex data hand-off, "
          "P4 reusable_storage_mtsafe, P5 generator _block, P6 promise _owner; lock skeletons of queue, limited_queue, thread_pool, scheduler, "
@@ -41,7 +41,7 @@ INFO = {}
 
 # which TSan scenarios exercise which obligation (used by the search step)
 OBLIGATION_SCENARIOS = {"p1": [1, 2, 3, 4], "p2_future": [4, 3], "p2_signal": [], "p2_mutex": [6], "p3": [6], "p4": [5], "p5": [8],
-                        "p6": [1], "lockset": [7, 9, 10], "touch": [6, 4]}
+                        "p6": [1], "lockset": [7, 9, 10], "touch": [6, 4, 11], "owner": [11, 6, 5, 4, 8]}
 
 
 def generate(ctx):
@@ -59,6 +59,11 @@ def generate(ctx):
         ctx.notes.append({"kind": "translator", "theorem": "c03_translator_complete", "problems": info["problems"]})
     for p in info.get("guard_problems", []):
         ctx.notes.append({"kind": "lockset", "theorem": "c03_guarded_state", "problem": p})
+    for p in info.get("owner_problems", []):
+        ctx.notes.append({"kind": "owner-discipline", "theorem": "c03_owner_discipline", "problem": p})
+    ctx.cov["debug_build_only_advisory"] = info.get("debug_build_only", [])
+    ctx.cov["owner_discipline_classes"] = {c: {"fields": d["fields"], "roles": {m: x["role"] for m, x in d["methods"].items()}}
+                                            for c, d in info.get("owner_classes", {}).items()}
     ctx.cov["translator_sites"] = info["sites"]
     ctx.cov["translator_ignored_sites"] = info["ignored_sites"]
     ctx.cov["translator_no_touch_after_publish"] = info["no_touch_after_publish"]
@@ -71,10 +76,10 @@ def gen(seed, tier):
     lo, hi = (5, 45) if tier == "quick" else (20, 200)
     cases = []
     # a small malformed stream, rejected identically by model and harness
-    cases.append(Case("tsan", "bad0", [[0, 5], [11, 5], [3]]))
-    for sid in range(1, 11):
+    cases.append(Case("tsan", "bad0", [[0, 5], [12, 5], [3]]))
+    for sid in range(1, 12):
         ns = rng.sample(range(lo, hi), min(per, hi - lo))
-        heavy = sid in (8, 9, 10)
+        heavy = sid in (8, 9, 10, 11)
         for k, n in enumerate(ns):
             if heavy:
                 n = max(5, n // 4)
@@ -86,7 +91,7 @@ def gen(seed, tier):
 
 
 def nontrivial(case, model_obs):
-    return any(len(o) == 2 and 1 <= o[0] <= 10 and o[1] >= 5 for o in case.ops)
+    return any(len(o) == 2 and 1 <= o[0] <= 11 and o[1] >= 5 for o in case.ops)
 
 
 def signature(case, impl_obs, model_obs):
@@ -103,7 +108,7 @@ def signature(case, impl_obs, model_obs):
 
 
 PART = {"name": "tsan", "harness": "tsan_c03.cpp", "gen": gen, "compiler": "clang++",
-        "flags": "-O1 -g -fsanitize=thread -fno-omit-frame-pointer", "no_shrink": True, "timeout_case": 30}
+        "flags": "-O1 -g -DNDEBUG -fsanitize=thread -fno-omit-frame-pointer", "no_shrink": True, "timeout_case": 30}
 PARTS = [PART]
 
 
@@ -112,11 +117,11 @@ def eval_obligations(ctx):
     src = ("From Coq Require Import List.\nFrom Cocls Require Import RADefs LocksetDefs.\nFrom Cocls.gen Require Import SyncGen.\n"
            "Eval vm_compute in (complete, P1.ok (P1.bits_of orders), P2.ok (P2.bits_future orders), P2.ok (P2.bits_signal orders),"
            " P2.ok (P2.bits_mutex orders), P3.ok (P3.bits_of orders), P4.ok (P4.bits_of orders), P5.ok (P5.bits_of orders),"
-           " no_touch_after_publish_subcr, no_touch_after_publish_mutex_subscribe, map class_ok skeletons).\n")
+           " no_touch_after_publish_subcr, no_touch_after_publish_mutex_subscribe, all_guarded owner_skeletons, map class_ok skeletons).\n")
     path = os.path.join(ctx.tmp, "c03_eval.v")
     open(path, "w").write(src)
     rc, o, e = vlib.sh("timeout 120 coqc -Q %s Cocls %s" % (vlib.COQ, path), cwd=ctx.tmp, timeout=150)
-    names = ["complete", "p1", "p2_future", "p2_signal", "p2_mutex", "p3", "p4", "p5", "touch_subcr", "touch_mutex"]
+    names = ["complete", "p1", "p2_future", "p2_signal", "p2_mutex", "p3", "p4", "p5", "touch_subcr", "touch_mutex", "owner"]
     vals = re.findall(r"\b(true|false)\b", o if rc == 0 else "")
     res = {}
     if rc != 0 or len(vals) < len(names):
@@ -153,14 +158,15 @@ def extra(ctx):
     label = {"complete": "c03_translator_complete", "p1": "c03_p1_orders_ok", "p2_future": "c03_p2_future_orders_ok",
              "p2_signal": "c03_p2_signal_orders_ok", "p2_mutex": "c03_p2_mutex_orders_ok", "p3": "c03_p3_orders_ok", "p4": "c03_p4_orders_ok",
              "p5": "c03_p5_orders_ok", "touch_subcr": "c03_no_touch_after_publish", "touch_mutex": "c03_no_touch_after_publish",
-             "lockset": "c03_guarded_state"}
+             "lockset": "c03_guarded_state", "owner": "c03_owner_discipline"}
     if broken:
         # Properties_C03.v stops compiling at the first failing side condition, so every theorem is reported undischarged;
         # keep only the precise names (the side conditions evaluated one by one)
         ctx.notes[:] = [n for n in ctx.notes if n.get("kind") != "proof"]
     for b in broken:
         ctx.notes.append({"kind": "side-condition", "theorem": label.get(b, b), "obligation": b,
-                          "orders": INFO.get("orders"), "problems": INFO.get("problems"), "guard_problems": INFO.get("guard_problems")})
+                          "orders": INFO.get("orders"), "problems": INFO.get("problems"), "guard_problems": INFO.get("guard_problems"),
+                          "owner_problems": INFO.get("owner_problems")})
     if broken and not ctx.failing:
         sids = []
         for b in broken:
